@@ -14,9 +14,10 @@ pub fn gen(rng: &mut Rng, n: usize, sink: &mut Sink) {
         let gs = sc("gas-service");
         for i in 0..6 {
             sink.exec(&format!(
-                "acct {} 1000000 {}",
+                "acct {} 1000000 {},{}:4:1000000",
                 hex::encode(user(i)),
-                TOKENS.iter().map(|t| format!("{}:0:1000000", t)).collect::<Vec<_>>().join(",")
+                TOKENS.iter().map(|t| format!("{}:0:1000000", t)).collect::<Vec<_>>().join(","),
+                TOKENS[0]
             ));
         }
         // now and then the collector is the zero address (at deployment, or set later by collector / owner)
@@ -42,6 +43,8 @@ pub fn gen(rng: &mut Rng, n: usize, sink: &mut Sink) {
                     1 => ("0".to_string(), format!("{}:0:{}", rng.pick(&TOKENS), amount)),
                     2 => ("0".to_string(), format!("{}:0:{},{}:0:1", TOKENS[0], amount, TOKENS[1])),
                     3 => ("0".to_string(), "-".to_string()),
+                    // a semi-fungible instance (non-zero nonce) of a gas token: never a fungible receipt
+                    4 => ("0".to_string(), format!("{}:4:{}", TOKENS[0], amount.max(1))),
                     _ => {
                         if esdt_ep {
                             ("0".to_string(), format!("{}:0:{}", rng.pick(&TOKENS), amount))
